@@ -4,6 +4,7 @@ import Wax.Proofs.TextMatches
 import Wax.Proofs.DepthFlat
 import Wax.Proofs.Escape
 import Wax.Generated
+import Wax.RuleS
 /-! Executable fragment tests of the query theorems (`exhaustive_sound_partial`,
 `depth_sound_partial`, `text_exact`), used as classifiers by the checks. -/
 namespace Wax
@@ -54,5 +55,28 @@ def cmdESC (s : Str) : String :=
     match Generated.metaChars.contains c, Generated.contextualMetaChars.contains c with
     | true, true => 'B' | true, false => 'M' | false, true => 'C' | false, false => '-')
   s!"escaped={hexStr (escape s)} meta={if bits.isEmpty then "-" else bits}"
+
+end Wax
+
+namespace Wax
+
+mutual
+  /-- some repetition that can iterate twice has a branch token as first or last token of its body:
+      the site of finding K-RULE-REP-NESTED (`check_repetition` looks at leaf terminals only) -/
+  def repBranchTerminal : Tok → Bool
+    | .alt _ bs => repBranchTerminalL bs
+    | .cat _ ts => repBranchTerminalL ts
+    | .rep _ b _ hi =>
+      ((match hi with | some h => decide (2 ≤ h) | none => true) &&
+        (match terminals b.concatenation with
+          | some ts => ts.start.isBranchT || ts.end_.isBranchT
+          | none => false)) || repBranchTerminal b
+    | _ => false
+  def repBranchTerminalL : List Tok → Bool
+    | [] => false
+    | t :: ts => repBranchTerminal t || repBranchTerminalL ts
+end
+
+def cmdF06 (t : Tok) : String := showFrag (if repBranchTerminal t then ["K-RULE-REP-NESTED"] else [])
 
 end Wax
